@@ -11,7 +11,7 @@
 EXTENDS Naturals, Integers, Sequences, FiniteSets, TLC, Json
 
 CONSTANTS P,          \* peers
-          ThrVals, CtVals, StLen, OLen, MaxVals, Kind
+          ThrVals, CtVals, StLen, OLen, MaxVals, Kinds
 
 VARIABLES c1, pc
 gvars == <<c1, pc>>
@@ -112,11 +112,12 @@ ValidStep ==
                                    exp |-> ValidExp(c1)])>>)
 
 Init == /\ pc = 0
-        /\ CASE Kind = "round" -> c1 \in [thr : ThrVals, C : SUBSET P, B : SUBSET P, backup : BOOLEAN, ct : CtVals]
-             [] Kind = "save"  -> c1 \in [C : SUBSET P, B : SUBSET P, D : SUBSET P, max : MaxVals]
-             [] Kind = "valid" -> c1 \in [thr : IV, period : IV, ct : IV, bi : IV, max : IV, backup : BOOLEAN, nopeers : BOOLEAN]
-Next == CASE Kind = "round" -> RoundStep
-          [] Kind = "save"  -> SaveStep
-          [] Kind = "valid" -> ValidStep
+        /\ \/ "round" \in Kinds /\ c1 \in [kind : {"round"}, thr : ThrVals, C : SUBSET P, B : SUBSET P, backup : BOOLEAN, ct : CtVals]
+           \/ "save" \in Kinds /\ c1 \in [kind : {"save"}, C : SUBSET P, B : SUBSET P, D : SUBSET P, max : MaxVals]
+           \/ "valid" \in Kinds /\ c1 \in [kind : {"valid"}, thr : IV, period : IV, ct : IV, bi : IV, max : IV,
+                                            backup : BOOLEAN, nopeers : BOOLEAN]
+Next == \/ c1.kind = "round" /\ RoundStep
+        \/ c1.kind = "save" /\ SaveStep
+        \/ c1.kind = "valid" /\ ValidStep
 Spec == Init /\ [][Next]_gvars
 =============================================================================
